@@ -17,7 +17,7 @@ CFG = dict(
                "The per-account lock of eth2-key-manager makes a sign request atomic in the model; the library's lock()/unlock() pair deadlocks on overlapping requests "
                "for one account (observed by the thorough tier, reported as an observation: liveness, not a released signature).",
     technique="Lean 4 proof (inductive invariant over op histories) + regenerated constants/call-site facts/fingerprints + differential run against the real "
-              "ethKeyManagerSigner on a real Badger DB (restart = close/reopen) + implementation-side oracle (pairwise slashability of all released signatures per share; released => record persisted, read back after reopen; restart changes no record)",
+              "ethKeyManagerSigner on a real Badger DB (restart = close/reopen) + implementation-side oracle (pairwise slashability of all released signatures per share; released => record persisted, read back after reopen; restart changes no record) + probe realclock: the signer on the real wall clock and the real beacon.Network across a slot boundary (oracle only)",
     lean=["Ssv.Props.C04"],
     engines=[dict(harness="ekm", driver="m_ekm", n_quick=100, n_thorough=1200, thorough_seeds=3, n_search=600, search_seeds=4, case_delim="reset")],
     rule="seeded histories (18-60 ops, 1-2 shares with fresh BLS keys per history, all on one on-disk Badger DB) over {add, addfail, remove, removefail, bump, "
@@ -26,7 +26,7 @@ CFG = dict(
          "while a bump is in flight (it holds the wallet lock) the clock advances and ONE lock-taking request is issued in a goroutine: whether it has to wait is probed on the real wallet lock (TryLock/TryRLock); a waiting request must complete after the bump has finished (observed via resume), a non-waiting one is executed at once; every non-waiting call runs under a 6 s per-op watchdog (outcome `hang`, world abandoned, run stops after 8 hangs); thorough tier adds concurrent sign requests for one share under a timeout. Every op line is run on "
          "the real signer and on the Lean model (outcome + read-back of both records and the account are diffed). A case is distinct+non-trivial per "
          "(op kind, relation of the request to the stored record, well-formedness, outcome, pre-check result) key computed by the harness.",
-    trusted_base=["the real beacon.Network clock functions are replaced by the harness' clock wrapper: a defect of EstimatedCurrentSlot itself is not seen by this check (campaign V, V-m02: missed)",
+    trusted_base=["in the model-diffed histories the real beacon.Network clock functions are replaced by the harness' clock wrapper; the REAL clock (real beacon.Network of networkconfig.TestNetwork, time.Now) is covered by the oracle-only probe `realclock` (one real-time sequence per run across a slot boundary: add, sign, remove, add, sign again — two blocks for one slot must not both be signed) (campaign V, V-m02)",
                   "clock mock: BeaconNetwork wrapper overriding EstimatedCurrentSlot/EstimatedCurrentEpoch of networkconfig.TestNetwork's beacon network",
                   "harness/inpkg/ekm/zz_verif_ekm.go: decorator around the signer's Storage field (pause / fail at entry of the 6 slashing-record calls, delegates to the real storage)",
                   "far-future window of eth2-key-manager depends on the wall clock: generated values are either far below (checked valid with the real function at start-up) or 2^62 (checked invalid)",
